@@ -18,7 +18,7 @@ TIERS = {
                   configs="MC_ConfigsQuick", maxlen=4, sim=6000, simdepth=14, contract_len=4),
     "thorough": dict(deltas="{0, 1, 2, 3, 64, 65, 32767, 32768, 65534, 65535}",
                      modes='{"step", "j2s", "j2s1", "b2s", "b2s1", "m05", "m051"}',
-                     configs="MC_Configs", maxlen=4, sim=60000, simdepth=18, contract_len=5),
+                     configs="MC_Configs", maxlen=4, sim=20000, simdepth=18, contract_len=5),
 }
 
 
